@@ -2,6 +2,7 @@ import QV.Model.Compiler
 import QV.Proofs.Circuit
 import QV.Proofs.CompilerInv
 import QV.Proofs.CompilerSem
+import QV.Proofs.CompilerSem2
 /-!
 # C02 – The circuit computes the function's boolean expressions
 
@@ -342,6 +343,145 @@ example : ∃ s, (compile ["a", "b", "c"]
   cases hrun : (compile ["a", "b", "c"]
       [("_ret", .xor [.not (.sym "a"), .sym "b", .not (.xor [.sym "c", .not (.sym "b")])])]
       (some ["_ret"]) true).run { choices := [3, 4] } with
+  | ok p => exact ⟨p.2, rfl⟩
+  | error e => rw [hrun] at h; cases h
+
+/-! ## Widened semantic fragment theorems
+
+Proofs: `QV/Proofs/CompilerSem2a…d.lean`, `QV/Proofs/CompilerSem2.lean`.  The invariants of `CompilerSem.lean`
+are generalised: the *scratch space* of a state is its free set together with the qubits not allocated yet,
+and every qubit of the scratch space is zero (`Pre2.zero`); constants and named intermediates are *known
+names* bound to qubits outside the free and the ancilla set (`Pre2.tbl`).  Between two definitions the inline
+`uncompute` replays, in reverse, the gates whose target is marked; `bennettF` shows that this gives the marked
+ancillas back as zeros, provided every control of every gate of the definition is marked itself or is a known
+name's qubit holding that name's value when the gate is applied – which `compile_expr` guarantees on the class
+`wfExp scope false` (no `Or` of three or more arguments with a symbol or constant among them: there De Morgan's
+`X` gates on the symbol's qubit are not replayed but the `MCX` between them is – the freed ancilla is then NOT
+zero, `#eval`-checked counterexamples in `docs/notes/C02_C03_C06.md`). -/
+
+/-- **(a) constants.**  C02 on single definitions whose expression may contain `True` / `False` (anywhere
+except directly, or under one `Not`, as an argument of `Xor`), including `r = True` / `r = False`; final
+uncomputation on or off; every admissible sequence of ancilla choices.  The class contains `inFragment`
+whenever the defined name is not `TRUE` / `FALSE`. -/
+theorem C02_fragment_consts (inputs : List String) (defs : List (String × BExp)) (rets : List String)
+    (unc : Bool) (choices : List Nat) (s : CState)
+    (hf : inFragmentConst inputs defs rets = true)
+    (h : (compile inputs defs (some rets) unc).run { choices := choices } = .ok ((), s)) :
+    Correct s.qc.gates.toList s.qc.numQubits s.qc.qmap inputs defs rets := by
+  match defs, hf, h with
+  | [(r, e)], hf, h =>
+    simp only [inFragmentConst, Bool.and_eq_true, decide_eq_true_eq, List.all_eq_true, bne_iff_ne, ne_eq,
+      Bool.not_eq_true', beq_iff_eq] at hf
+    obtain ⟨⟨⟨⟨⟨⟨hnd, hfr⟩, hr1⟩, hr2⟩, hwf⟩, hdist⟩, hrets⟩ := hf
+    intro x hx r' hr'
+    have hr : r' = r := hrets r' hr'
+    subst hr
+    obtain ⟨q, hq, hv⟩ := compile_const_sem h (fun _ => hr') hnd (fun n hn => hfr n hn) ⟨hr1, hr2⟩ hwf
+      (distinctB_iff.mp hdist) x hx
+    refine ⟨q, hq, ?_⟩
+    rw [hv]
+    simp [evalDefs, envOf]
+
+/-- **(c) named intermediates.**  C02 on straight-line definition lists (`m0 = e0; …; _ret = f(m0, args)`; every
+right-hand side reads arguments and earlier left-hand sides, any number of times; constants allowed as in (a);
+no cache key twice in the whole list; `Or` with three or more arguments only over compound arguments), final
+uncomputation off, every admissible sequence of ancilla choices – including the runs in which ancillas freed
+by the inline `uncompute` after one definition are re-used by later ones. -/
+theorem C02_fragment_named (inputs : List String) (defs : List (String × BExp)) (rets : List String)
+    (choices : List Nat) (s : CState)
+    (hf : inFragmentNamed inputs defs rets = true)
+    (h : (compile inputs defs (some rets) false).run { choices := choices } = .ok ((), s)) :
+    Correct s.qc.gates.toList s.qc.numQubits s.qc.qmap inputs defs rets := by
+  simp only [inFragmentNamed, Bool.and_eq_true, decide_eq_true_eq, List.all_eq_true, Bool.not_eq_true',
+    List.any_eq_true, beq_iff_eq] at hf
+  obtain ⟨⟨⟨⟨hnd, hfr⟩, hsl⟩, hdist⟩, hrets⟩ := hf
+  intro x hx r hr
+  exact compile_named_sem h hnd hfr hsl (distinctB_iff.mp hdist) x hx r (hrets r hr)
+
+/-- **(b) several return bits.**  C02 on definition lists `_ret.0 = e0; _ret.1 = e1; …` in which every
+right-hand side is an independent tree over the arguments alone (a sub-class of (c)), final uncomputation off. -/
+theorem C02_fragment_multi (inputs : List String) (defs : List (String × BExp)) (rets : List String)
+    (choices : List Nat) (s : CState)
+    (hf : inFragmentMulti inputs defs rets = true)
+    (h : (compile inputs defs (some rets) false).run { choices := choices } = .ok ((), s)) :
+    Correct s.qc.gates.toList s.qc.numQubits s.qc.qmap inputs defs rets := by
+  simp only [inFragmentMulti, Bool.and_eq_true] at hf
+  exact C02_fragment_named inputs defs rets choices s hf.1 h
+
+/-- the step (b)/(c) rest on, in isolation: **"free ⇒ zero" is an invariant of the statement loop on the
+class** – if every qubit of the scratch space (free set and not yet allocated qubits) is zero before a
+straight-line definition list is compiled (invariant `Inv`), it is so afterwards -/
+theorem C02_free_zero_invariant (defs : List (String × BExp)) (scope : List String)
+    (env : List (String × Bool)) (done : List BExp) (σ0 : FState) (s s' : CState)
+    (h : (compileDefs defs).run s = .ok ((), s')) (hinv : Inv scope (envOf env) σ0 done s)
+    (hsl : slDefs scope defs = true) (hd : distinctB (done ++ defs.flatMap (fun p => compKeys p.2)) = true) :
+    ∀ q, q ∈ s'.qc.free → cur σ0 s' q = false := by
+  obtain ⟨scope', done', hfin, _, _⟩ := defs_sem defs scope env done h hinv hsl (distinctB_iff.mp hd)
+  exact fun q hq => hfin.pre.zero q (Or.inl hq)
+
+/-- instances of the three classes -/
+example : inFragmentConst ["a", "b", "c"]
+    [("_ret", .or [.and [.sym "a", .tt], .not .ff, .xor [.sym "b", .and [.sym "c", .ff], .not (.not .tt)]])]
+    ["_ret"] = true := by decide +kernel
+
+example : inFragmentConst ["a"] [("_ret", .tt)] ["_ret"] = true := by decide +kernel
+
+/-- not in class (a): a constant directly under `Xor` (`compile_xor` would accumulate into the constant's qubit) -/
+example : inFragmentConst ["a"] [("_ret", .xor [.sym "a", .tt])] ["_ret"] = false := by decide +kernel
+
+example : inFragmentMulti ["a", "b", "c"]
+    [("_ret.0", .or [.and [.sym "a", .sym "b"], .sym "c"]),
+     ("_ret.1", .and [.not (.sym "a"), .xor [.sym "b", .sym "c"]])] ["_ret.0", "_ret.1"] = true := by
+  decide +kernel
+
+example : inFragmentNamed ["a", "b", "c"]
+    [("m0", .and [.sym "a", .sym "b"]), ("_ret", .xor [.sym "m0", .or [.sym "c", .not (.sym "m0")]])]
+    ["_ret"] = true := by decide +kernel
+
+/-- not in classes (b)/(c): `Or` of three arguments with symbols among them, below an `And` – the ancilla of
+the `Or` is freed non-zero by the inline `uncompute` (De Morgan's `X` gates on `a`, `b` are not replayed) -/
+example : inFragmentNamed ["a", "b", "c", "d"]
+    [("_ret.0", .and [.or [.sym "a", .sym "b", .sym "c"], .sym "d"]), ("_ret.1", .and [.sym "a", .sym "d"])]
+    ["_ret.0", "_ret.1"] = false := by decide +kernel
+
+/-- the same with a compound argument list is in the class -/
+example : inFragmentNamed ["a", "b", "c", "d"]
+    [("_ret.0", .and [.or [.not (.sym "a"), .and [.sym "b", .sym "c"], .xor [.sym "c", .sym "d"]], .sym "d"]),
+     ("_ret.1", .and [.sym "a", .sym "d"])] ["_ret.0", "_ret.1"] = true := by decide +kernel
+
+/-- non-vacuity: programs of the classes with successful runs of the model (kernel-evaluated; programs with
+`And` / `Or`, whose runs re-use freed ancillas, are exercised through the driver – `List.mergeSort` does not
+evaluate in the kernel) -/
+example : ∃ s, (compile ["a"] [("_ret", .xor [.sym "a", .not (.not .tt)])] (some ["_ret"]) true).run
+    { choices := [1] } = .ok ((), s) := by
+  have h : ((compile ["a"] [("_ret", .xor [.sym "a", .not (.not .tt)])] (some ["_ret"]) true).run
+      { choices := [1] }).toBool = true := by decide +kernel
+  cases hrun : (compile ["a"] [("_ret", .xor [.sym "a", .not (.not .tt)])] (some ["_ret"]) true).run
+      { choices := [1] } with
+  | ok p => exact ⟨p.2, rfl⟩
+  | error e => rw [hrun] at h; cases h
+
+example : ∃ s, (compile ["a", "b", "c"]
+      [("m0", .xor [.sym "a", .sym "b"]), ("_ret", .xor [.sym "m0", .not (.sym "c")])]
+      (some ["_ret"]) false).run { choices := [3, 4] } = .ok ((), s) := by
+  have h : ((compile ["a", "b", "c"]
+      [("m0", .xor [.sym "a", .sym "b"]), ("_ret", .xor [.sym "m0", .not (.sym "c")])]
+      (some ["_ret"]) false).run { choices := [3, 4] }).toBool = true := by decide +kernel
+  cases hrun : (compile ["a", "b", "c"]
+      [("m0", .xor [.sym "a", .sym "b"]), ("_ret", .xor [.sym "m0", .not (.sym "c")])]
+      (some ["_ret"]) false).run { choices := [3, 4] } with
+  | ok p => exact ⟨p.2, rfl⟩
+  | error e => rw [hrun] at h; cases h
+
+example : ∃ s, (compile ["a", "b", "c"]
+      [("_ret.0", .xor [.sym "a", .sym "b"]), ("_ret.1", .not (.xor [.sym "b", .sym "c"]))]
+      (some ["_ret.0", "_ret.1"]) false).run { choices := [3, 4] } = .ok ((), s) := by
+  have h : ((compile ["a", "b", "c"]
+      [("_ret.0", .xor [.sym "a", .sym "b"]), ("_ret.1", .not (.xor [.sym "b", .sym "c"]))]
+      (some ["_ret.0", "_ret.1"]) false).run { choices := [3, 4] }).toBool = true := by decide +kernel
+  cases hrun : (compile ["a", "b", "c"]
+      [("_ret.0", .xor [.sym "a", .sym "b"]), ("_ret.1", .not (.xor [.sym "b", .sym "c"]))]
+      (some ["_ret.0", "_ret.1"]) false).run { choices := [3, 4] } with
   | ok p => exact ⟨p.2, rfl⟩
   | error e => rw [hrun] at h; cases h
 
